@@ -77,7 +77,10 @@ func sigKeys() []sigKey {
 	return sigKeysAll
 }
 
-type captureLogger struct{ payload string }
+type captureLogger struct {
+	payload string
+	all     []string // every payload seen, in signing order
+}
 
 var signedStepRE = regexp.MustCompile(`(?s)^Signed Step: (.*) checksum: [0-9a-f]+$`)
 
@@ -85,6 +88,7 @@ func (l *captureLogger) Debug(f string, v ...any) {
 	s := fmt.Sprintf(f, v...)
 	if m := signedStepRE.FindStringSubmatch(s); m != nil {
 		l.payload = m[1]
+		l.all = append(l.all, m[1])
 	}
 }
 
